@@ -409,8 +409,13 @@ class World(object):
             return "G92 E0", dict(e=Fr(0))
         if k == "ARC":
             start, end, i, j, cw = ARCS[ev[1]]
-            return "%s X%s Y%s I%s J%s" % ("G2" if cw else "G3", fmt(end[0] - f["sx"]), fmt(end[1] - f["sy"]),
-                                           fmt(i), fmt(j)), dict(x=Fr(end[0]), y=Fr(end[1]))
+            if f["abs"]:
+                xw, yw = fmt(end[0] - f["sx"]), fmt(end[1] - f["sy"])
+            else:
+                xw, yw = fmt(end[0] - f["x"]), fmt(end[1] - f["y"])
+            # zero centre-offset words are left out, as CAM post-processors do (a missing I/J word means 0)
+            ij = " ".join(w for w in ("I" + fmt(i) if i else "", "J" + fmt(j) if j else "") if w)
+            return "%s X%s Y%s %s" % ("G2" if cw else "G3", xw, yw, ij), dict(x=Fr(end[0]), y=Fr(end[1]))
         if k == "REL":
             return "G91", dict(abs=False)
         if k == "ABS":
@@ -476,7 +481,8 @@ class World(object):
                 continue
             if k == "ARC":
                 start = ARCS[ev[1]][0]
-                if not f["abs"] or f["inch"] or self.pt(start) != (f["x"], f["y"]):
+                if (not f["abs"] and not self.cfg.get("relarcs")) or f["inch"] or \
+                        self.pt(start) != (f["x"], f["y"]):
                     continue
             if k == "REL" and not f["abs"]:
                 continue
